@@ -30,7 +30,10 @@ POOL_BUILD = {"overlays": PC.OVERLAYS + [{"src": "C06/kani_c06_cut.rs", "dest": 
               # std Vec in pool.rs (the list of blocks waiting for one parent) -> typed contiguous stand-in: the length and the
               # elements of a std Vec behind its untyped heap block are symbolic to CBMC, the wake-up loop is then unrolled
               # to the unwind bound with a symbolic child slot each time (measured: > 16 min of symbolic execution)
-              "redirects": [{"file": PC.POOL, "pattern": r"^use std::ops::RangeBounds;$", "replacement": "use std::ops::RangeBounds;\n#[cfg(kani)]\nuse crate::verif_coll::tvec::{Vec, vec};", "count": 1, "required": True}] + PC.REDIRECTS, "coll_cap": 4}
+              # the list of blocks waiting for one parent: typed contiguous stand-in instead of std Vec, for this field only (growing a
+              # std Vec inside the map - realloc with a symbolic capacity - does not finish; redirecting every Vec of pool.rs bloats PoolEvent)
+              "redirects": [{"file": PC.POOL, "pattern": r"^    s2n_waiting_parent_cert: BTreeMap<BlockId, Vec<BlockId>>,$",
+                             "replacement": "    #[cfg(not(kani))]\n    s2n_waiting_parent_cert: BTreeMap<BlockId, Vec<BlockId>>,\n    #[cfg(kani)]\n    s2n_waiting_parent_cert: BTreeMap<BlockId, crate::verif_coll::tvec::Vec<BlockId>>,", "count": 1, "optional": True}] + PC.REDIRECTS, "coll_cap": 3}
 POOL_TIERS = {}  # filled below once a harness has been observed to pass on the unchanged tree
 S2S_TIERS = {}
 def _wake(n, d):
@@ -46,7 +49,7 @@ WAKE = [("c06_pool_wake_notar_one", "one block waits; the parent's notarization 
         ("c06_pool_block_nfallback", "a block arrives after the parent's notar-fallback certificate"), ("c06_pool_block_fastfinal", "a block arrives after the parent's fast-finalization certificate")]
 SPEC = {
     "property": "C06",
-    "level_text": "PARTIAL claim. (1) The safe-to-notar DECISION KERNEL - one call of the real SlotState::check_safe_to_notar on an arbitrary state (3 validators, symbolic stakes, who holds what, parent status, own votes, pending flag): it answers SafeToNotar exactly under the condition of the property statement (own voted but not for this block; 40%, or 20% with 60% including skip - skip-fallback stake never counted; parent certified), asks for repair exactly when only the block is missing, and keeps the signalled / pending bookkeeping consistent (a block that only waits for a skip vote or the own vote is pending). (2) The POOL HAND-OVER of the parent's certificate (c06_pool_*): a block registered by the real PoolImpl::add_block before its parent is certified waits for the parent's certificate - also when another block already waits for the same parent, none is dropped - and one registered after the certificate is told at once, for a notarization, notar-fallback or fast-finalization certificate; when the real PoolImpl::add_cert / add_valid_cert then stores the parent's certificate (each of the three kinds), EVERY waiting block's slot state is told that its parent is certified (the call that evaluates and raises safe-to-notar). Two genuine defects of this hand-over were found and repaired (fast-finalization certificate never woke the child; one waiting block per parent). NOT covered by the solver: that every VOTE trigger re-evaluates (the as-soon-as half for votes) and the safe-to-skip condition - the step harnesses and two decoupled-counter kernels exist in kani_c06.rs but exceed the memory cap (DESIGN.md section 9); the defect of that half (own notar vote last) was found and fixed via a native test, not by the solver.",
+    "level_text": "PARTIAL claim: the safe-to-notar DECISION KERNEL only - one call of the real SlotState::check_safe_to_notar on an arbitrary state (3 validators, symbolic stakes, who holds what, parent status, own votes, pending flag): it answers SafeToNotar exactly under the condition of the property statement (own voted but not for this block; 40%, or 20% with 60% including skip - skip-fallback stake never counted; parent certified), asks for repair exactly when only the block is missing, and keeps the signalled / pending bookkeeping consistent (a block that only waits for a skip vote or the own vote is pending). NOT covered by a registered harness: (a) that every VOTE trigger re-evaluates (the as-soon-as half for votes) and the safe-to-skip condition - the step harnesses and two decoupled-counter kernels exist in kani_c06.rs but exceed the memory cap (DESIGN.md section 9); the defect of that half (own notar vote last) was found and fixed via a native test; (b) the POOL HAND-OVER of the parent's certificate (kani_c06_pool.rs: a block registered before its parent's certificate waits, every waiting block is told when a notarization / notar-fallback / fast-finalization certificate arrives): these harnesses found one genuine defect with the solver (fast-finalization certificate never woke the child, fix 46cf652) and led to a second (one waiting block per parent, fix 13529aa), but on the repaired tree their symbolic execution no longer finishes inside the caps (> 15 min; the list of waiting blocks inside the map), so they are kept unregistered.",
     "level_note": "Bounds: 3 validators, 2 competing blocks, one slot, one trigger from an arbitrary invariant pre-state. All certificates are pre-installed (so the trigger creates none: creation is C03). The pool-level hand-off (add_block / add_valid_cert calling notify_parent_certified, s2n_waiting_parent_cert) is outside. BLS signing stubbed; container stand-ins under Kani. Trusts Kani, CBMC, CaDiCaL.",
     "overlays": [COLL, FIX, AGG, CERT, SLOTFIX, {"src": "C06/kani_c06.rs", "dest": "src/consensus/pool/slot_state/kani_c06.rs", "decl_in": SS, "decl": "mod kani_c06;"}],
     "redirects": SLOT_STATE_REDIRECTS,
